@@ -378,6 +378,9 @@ def run_check(prop, tier, seed, replay_file=None):
                 if kind == "UNSPEC":
                     unspec += 1
                     continue
+                if kind == "SPECDEFECT":
+                    raise Machinery("the specification disagrees with its authoritative oracle on event %s: %s\n%s"
+                                    % (eid, clause, json.dumps({k: v for k, v in ev.items() if k != "meta"})[:600]))
                 clause_counts[clause] = clause_counts.get(clause, 0) + 1
                 feats = drv.features(ev, clause) if hasattr(drv, "features") else {}
                 owner = drv.owner(ev, clause) if hasattr(drv, "owner") else prop
